@@ -287,6 +287,13 @@ static int _vds_shared_init(vorbis_dsp_state *v,vorbis_info *vi,int encp){
       ci->book_param[i]=NULL;
     }
   }
+  if(ci->fullbooks){
+    /* a later init on this vorbis_info must not find a half-built table */
+    for(i=0;i<ci->books;i++)
+      vorbis_book_clear(ci->fullbooks+i);
+    _ogg_free(ci->fullbooks);
+    ci->fullbooks=NULL;
+  }
   vorbis_dsp_clear(v);
   return -1;
 }
